@@ -4,7 +4,8 @@
 REPO=${1:-/repo}
 export GOFLAGS=-mod=mod GOPROXY=off GOSUMDB=off GOTOOLCHAIN=local; unset GOWORK
 OUT=$(mktemp /tmp/baseline.XXXXXX.json)
-(cd $REPO && go test -mod=mod -json -vet=off -count=1 -timeout 25m ./... > $OUT 2>/dev/null)
+# private network namespace: the acceptance suites listen on fixed ports
+unshare -rn bash -c "ip link set lo up; cd $REPO && go test -mod=mod -json -vet=off -count=1 -timeout 25m ./... > $OUT 2>/dev/null"
 python3 - "$OUT" <<'PY'
 import json, sys
 passed=set(); failed=set()
